@@ -136,6 +136,9 @@ func (g Gateway) RegisterSwamp(_ context.Context, in *hydrapb.RegisterSwampReque
 		// return with grpc error message
 		return nil, status.Error(codes.InvalidArgument, "SwampPattern cannot be empty")
 	}
+	if !isCompleteSwampName(in.SwampPattern) {
+		return nil, status.Error(codes.InvalidArgument, "SwampPattern must have the form sanctuary/realm/swamp")
+	}
 
 	// try to create the pattern from the input string
 	swampPattern := name.Load(in.SwampPattern)
@@ -180,6 +183,9 @@ func (g Gateway) DeRegisterSwamp(_ context.Context, in *hydrapb.DeRegisterSwampR
 	if in.SwampPattern == "" {
 		// return with grpc error message
 		return nil, status.Error(codes.InvalidArgument, "SwampPattern cannot be empty")
+	}
+	if !isCompleteSwampName(in.SwampPattern) {
+		return nil, status.Error(codes.InvalidArgument, "SwampPattern must have the form sanctuary/realm/swamp")
 	}
 
 	// try to create the pattern from the input string
@@ -1264,6 +1270,13 @@ func (g Gateway) DestroyBulk(stream hydrapb.HydraideService_DestroyBulkServer) e
 		go func() {
 			defer wg.Done()
 			for target := range workCh {
+				if !isCompleteSwampName(target.GetSwampName()) {
+					// name.Load cannot parse it, and a panic in this goroutine is not
+					// recovered by the handler: it would take the whole server down
+					failed.Add(1)
+					lastError.Store(fmt.Sprintf("%s: swamp name must have the form sanctuary/realm/swamp", target.GetSwampName()))
+					continue
+				}
 				swampName := name.Load(target.GetSwampName())
 				swampInterface, err := hydraInterface.SummonSwamp(stream.Context(), target.GetIslandID(), swampName)
 				if err != nil {
@@ -2996,6 +3009,10 @@ func checkSwampName(zeusInterface zeus.Zeus, islandID uint64, inputSwampName str
 	if len(inputSwampName) > maxSwampNameLength {
 		return nil, status.Error(codes.InvalidArgument, "SwampName cannot be longer than 65535 bytes")
 	}
+	if !isCompleteSwampName(inputSwampName) {
+		// name.Load reads the three segments unconditionally
+		return nil, status.Error(codes.InvalidArgument, "SwampName must have the form sanctuary/realm/swamp")
+	}
 	swampName := name.Load(inputSwampName)
 
 	// check the existence of the swamp only if it is needed
@@ -3012,6 +3029,12 @@ func checkSwampName(zeusInterface zeus.Zeus, islandID uint64, inputSwampName str
 
 	return swampName, nil
 
+}
+
+// isCompleteSwampName reports whether the name has the three "/"-separated
+// segments (sanctuary/realm/swamp) that name.Load reads.
+func isCompleteSwampName(swampName string) bool {
+	return strings.Count(swampName, "/") >= 2
 }
 
 func inputIndexTypeToBeaconType(inputIndexType hydrapb.IndexType_Type) swamp.BeaconType {
